@@ -64,6 +64,32 @@ def asm_theorems(*prefixes):
     return [t for t in thms if any(t.split(".")[-1].startswith(p) for p in prefixes)]
 
 
+# prefixes of the generated Maxwell theorem groups (props/asm_gen_mx.py), by the property that cites them
+MX_PREFIXES = {
+    # C06 (a): traced E-field blocks = closed form = -ik Σ_c R_c' V1 R_c - (1/ik) D' V0 D (regular, singular), scatter of the
+    # local blocks into the edge-numbered matrix, closed forms of the traced single-layer V0 / V1; (b): complex symmetry of
+    # the regular E and M blocks; closed forms of the M blocks
+    "C06": ("mx_scalar_regular_closed_form", "mx_scalar_singular_closed_form", "mx_efield_regular_closed_form",
+            "mx_efield_regular_decomposition", "mx_efield_regular_scatter", "mx_efield_singular_closed_form",
+            "mx_efield_singular_decomposition", "mx_efield_regular_symmetric", "mx_mfield_regular_symmetric",
+            "mx_mfield_regular_closed_form", "mx_mfield_singular_closed_form"),
+    # C07 (c): boundary assembler on two disjoint grids vs Galerkin-tested traced potential
+    "C07": ("mx_two_mfield_is_minus_tested_potential", "mx_two_efield_is_minus_tested_potential_minus_remainder"),
+    # C08 (d): traced potentials / far fields = closed-form kernel sums
+    "C08": ("mx_potential_efield_closed_form", "mx_potential_mfield_closed_form", "mx_potential_efield_far_field_closed_form",
+            "mx_potential_mfield_far_field_closed_form"),
+    # C13: Laplace-Beltrami local blocks
+    "C13": ("sparse_lb_",),
+}
+MX = "BemppVerif.Mx."
+MX_LEMMAS = [MX + t for t in ("efield_decomposition", "efield_decomposition_sing", "quadForm_reg", "quadForm_sing",
+                              "rwgVal_interp", "rwgRef_divergence", "rwgDivIe_eq")]
+
+
+def mx_theorems(pid):
+    return asm_theorems(*MX_PREFIXES[pid])
+
+
 K = "BemppVerif.Kernels."
 KERNEL_FACTS = {
     "laplace": [K + f"laplace_{k}_{m}" for k in ("sl", "dl", "adl") for m in ("regular", "singular")],
@@ -146,6 +172,13 @@ def trace_validation(ctx, pid):
     if fam and not kernels_only:
         from props import asm_validate
         res.merge(asm_validate.validate(ctx, fam))
+    mxfam = {"C06": ("mx_regular", "mx_singular"), "C07": ("mx_two", "mx_potential"), "C08": ("mx_potential",)}.get(pid, ())
+    if mxfam:
+        from props import asm_validate
+        res.merge(asm_validate.validate_maxwell(ctx, mxfam))
+    if pid == "C13":
+        from props import asm_validate
+        res.merge(asm_validate.validate_sparse(ctx))
     if pid in ("C01", "C04"):
         from props import asm_corr
         asm_corr.dense_correspondence(ctx, res)
